@@ -28,6 +28,11 @@ class C20(WrapHarness):
                     'n': 3, 'wmax': 8 if q else 12, 'gaps': ['', '', '']})
         out.append({'feat': 'full', 'algo': 'F', 'sep': 'A', 'split': 'N', 'bw': False, 'cols': 2, 'gen': 'symallx',
                     'tokens': (), 'n': 2, 'wmax': 5 if q else 8, 'gaps': 'sym', 'gmax': 1, 'gcl': (1,) if q else (1, 3)})
+        # sentence templates: realistic cell contents, total widths up to 24 / 40
+        for cols in (2, 3):
+            for t in (('short',) if q else ('short', 'sentence', 'wide', 'longword')):
+                out.append({'feat': 'full', 'algo': 'F', 'sep': 'A', 'split': 'H', 'bw': cols == 2, 'cols': cols, 'gen': 'tmpl',
+                            'tmpl': TEMPLATES[t], 'tname': t, 'wmax': 24 if q else 40, 'gaps': ['| ', ' | ', ' |']})
         return out
 
     def bounds_text(self, tier):
